@@ -64,6 +64,8 @@ class C06:
             cfg["bp_form"] = rng.choice(["plain", "plain", "symlink", "dotdot"])
             # CNB_APP_DIR in the environment: the working directory, absent, or some other directory
             cfg["app_env"] = rng.choice(["same", "same", "absent", "other", "other"])
+            # the platform directory handed over under a name that is not UTF-8 (one case in twelve)
+            cfg["odd_platform"] = rng.random() < 0.08
             tree = []
             used = set()
             for _ in range(rng.randint(0, 5)):
@@ -169,6 +171,11 @@ class C06:
         inputs = f"(mkIn {phase} {cq_fs(self.platform_fs(c))} {tv_vars} {cq_tv(self.desc_doc(c))} {cq_tv(c['plan_doc'])} {store})"
         ctx = o.get("build_context") if c["exe"] == "build" else o.get("detect_context")
         entered = (o["build_entered"] if c["exe"] == "build" else o["detect_entered"]) == 1
+        if not entered and c.get("odd_platform") and o["exit"] not in (0, 100) and ctx is None:
+            # arguments that cannot be represented as strings: refusing to run (any failure status) is a reported error;
+            # for the model this is an input that cannot be represented (a descriptor that is not a table)
+            unrep = f"(mkIn {phase} {cq_fs(self.platform_fs(c))} {tv_vars} (TStr []) {cq_tv(c['plan_doc'])} {store})"
+            return f"(mkCase {unrep} None)"
         if not entered:
             ok_err = o["exit"] == 1 and o["on_error"] == 1 and ctx is None
             return f"(mkCase {inputs} None)" if ok_err else f"(mkCase {inputs} (Some (mkObs [] (mkTarget [] [] None [] []) (VBool false) None None false)))"
